@@ -73,4 +73,30 @@ PROPS = {
         trusted_base=['hand-written model Model/Router.v (backoff map, graft sites, handleGraft / handlePrune, clearBackoff)'],
         assumptions=['PRUNE backoff periods below 2^63 / 10^9 seconds (no int64 overflow of time.Duration)'],
     ),
+    'C17': dict(
+        coq=['Props/C17', 'Run/GossipRun'],
+        go=[dict(run='^TestVF_Gossip$')],
+        rewrite_check=[('check_gcase', '(check_gcase_for 17)')],
+        trusted_base=['hand-written models Model/Gossip.v (mcache, handleIHave / handleIWant / handleIDontWant, emitGossip, promises, Preprocess) on top of Model/Router.v',
+                      'the seen-cache never expires in Model/Gossip.v (its expiry is modelled and proved separately for C02); histories of the correspondence stay well inside the 120 s TTL'],
+        assumptions=['0 < HistoryLength and HistoryGossip <= HistoryLength (NewMessageCache panics otherwise)',
+                     'message IDs are unique per message (the default and every sane MsgIdFunction)'],
+    ),
+    'C06': dict(
+        coq=['Props/C06', 'Run/GossipRun'],
+        go=[dict(run='^TestVF_Gossip$')],
+        rewrite_check=[('check_gcase', '(check_gcase_for 6)')],
+        trusted_base=['hand-written model Model/Gossip.v (rpcs recipient computation, fanout creation) and Model/Router.v (fanout maintenance)',
+                      'FloodSubRouter.Publish and RandomSubRouter.Publish are not part of this model (gossipsub router only)',
+                      'field-for-field equality of forwarded copies is checked by the harness on the real wire messages, not proved'],
+        assumptions=['partial-message extension off (iSupportSendingPartial false)'],
+    ),
+    'C09': dict(
+        coq=['Props/C09', 'Run/GossipRun'],
+        go=[dict(run='^TestVF_Gossip$')],
+        rewrite_check=[('check_gcase', '(check_gcase_for 9)')],
+        trusted_base=['hand-written models Model/Gossip.v (AcceptFrom graylist gate, gossip / publish thresholds) and Model/Router.v (negative-score rules)',
+                      'peer-exchange record validation (accept-PX threshold, signed records) and the validation-overload gater are NOT modelled'],
+        assumptions=['scores are integers in the correspondence (application-specific score with weight 1, all other score components off)'],
+    ),
 }
